@@ -25,16 +25,16 @@ THEOREMS = ['Props.C19.' + t for t in [
     'block_mapping_identity',
     'block_mapping_keyerror_src1_tgt0', 'block_mapping_keyerror_src2_tgt0', 'block_mapping_keyerror_general',
     'incon_transfer_underground', 'incon_transfer_atmosphere_single', 'incon_average_value',
-    'incon_transfer_atmosphere_percolumn', 'incon_transfer_total_partial', 'incon_transfer_source_unaltered',
+    'incon_transfer_atmosphere_percolumn', 'incon_transfer_total_partial', 'incon_transfer_source_unaltered', 'incon_heap_model_agrees',
     'rocktype_transfer_spec', 'rocktype_transfer_identity',
     'generator_transfer_identity', 'generator_totals_identity']]
-LEVEL_TEXT = ('Proof: 18 Lean theorems (no sorry) about an executable model of mulgrid.block_mapping / column_mapping / layer_mapping / '
+LEVEL_TEXT = ('Proof: 19 Lean theorems (no sorry) about an executable model of mulgrid.block_mapping / column_mapping / layer_mapping / '
               'column_surface_layer, t2incon.transfer_from (functional and object-heap versions) and t2data.transfer_generators_from / '
               'transfer_rocktypes_from: block_mapping returns and is total, underground blocks go to existing source blocks, atmosphere blocks to '
               'the source\'s corresponding atmosphere block; the image is the nearest column x nearest layer, moved to the column\'s first '
               'layer below ground exactly when the block would be above the surface; a geometry onto itself is the identity (all 3 atmosphere types); '
               'initial conditions: every underground block gets exactly its mapped source block\'s state, the 3x3 atmosphere table (first/average/'
-              'broadcast/per mapped column/default) incl. what the average is, totality, and (heap model) no pre-existing object is altered; '
+              'broadcast/per mapped column/default) incl. what the average is, totality, and (heap model, proved to compute the same states) no pre-existing object is altered; '
               'rock types follow the mapping; onto an identical geometry every generator and hence every total is reproduced item for item '
               '(top/bottom/interior, tables, rename, preserve_totals). PARTIAL: totality statements hold for 7 of the 9 atmosphere combinations; '
               'for source type 1 or 2 onto target type 0 block_mapping raises KeyError (known finding, not repaired): proved on two concrete '
